@@ -3,11 +3,18 @@ package harness
 // C03 — request metadata, response headers and trailers arrive complete and unaltered.
 
 import (
+	"context"
 	"fmt"
 	"strings"
+	"sync"
 	"testing"
+	"time"
 
+	"google.golang.org/grpc"
+	"google.golang.org/grpc/metadata"
 	"pgregory.net/rapid"
+
+	pb "github.com/fullstorydev/grpchan/grpchantesting"
 )
 
 type c03Case struct {
@@ -16,6 +23,99 @@ type c03Case struct {
 	// Calls > 1: the script is run that many times in a row on the same channel and server, the handler
 	// reusing its metadata objects (S.StaticMD); every call must look like the first
 	Calls int `json:",omitempty"`
+	// Gate != "": separate mode - "headers become observable no later than the first response message". The handler
+	// (server-streaming or bidi) does the header operations of GateOps, sends one message and then waits; the
+	// client receives that message and asks for Header() while the handler is still waiting: the answer (what the
+	// handler set, possibly nothing) has to come without the handler doing anything more.
+	Gate    string   `json:",omitempty"` // kind: server-stream | bidi
+	GateOps []string `json:",omitempty"` // sethdr | sendhdr
+	GateMD  MDSpec   `json:",omitempty"`
+}
+
+func c03Gate(c c03Case) *Outcome {
+	o := &Outcome{NonTrivial: true}
+	o.class("carrier=%s", c.Carrier)
+	o.class("header-after-first-message/kind=%s/header-ops=%d", c.Gate, len(c.GateOps))
+	release := make(chan struct{})
+	var relOnce sync.Once
+	free := func() { relOnce.Do(func() { close(release) }) }
+	defer free()
+	svc := &Service{Stream: func(kind string, stream grpc.ServerStream) error {
+		stream.RecvMsg(new(pb.Message))
+		for _, op := range c.GateOps {
+			if op == "sendhdr" {
+				stream.SendHeader(c.GateMD.MD())
+			} else {
+				stream.SetHeader(c.GateMD.MD())
+			}
+		}
+		if err := stream.SendMsg(&pb.Message{Count: 1}); err != nil {
+			return err
+		}
+		select {
+		case <-release:
+		case <-stream.Context().Done():
+		case <-time.After(stallBound):
+		}
+		return nil
+	}}
+	car := newCarrier(c.Carrier, newServiceDesc(), svc, carrierOpts{})
+	defer car.Close()
+	ctx, cancel := context.WithCancel(context.Background())
+	defer cancel()
+	var hdr metadata.MD
+	var herr, rerr error
+	answered := false
+	stall := guard("call", func() {
+		cs, err := car.Conn.NewStream(ctx, streamDescOf(c.Gate), methodOf(c.Gate))
+		if err != nil {
+			rerr = err
+			return
+		}
+		cs.SendMsg(&pb.Message{})
+		if c.Gate == kServerStream || isHTTP(c.Carrier) {
+			cs.CloseSend() // (half-duplex over HTTP)
+		}
+		if rerr = cs.RecvMsg(new(pb.Message)); rerr != nil {
+			return
+		}
+		done := make(chan struct{})
+		go func() {
+			defer close(done)
+			hdr, herr = cs.Header()
+		}()
+		select {
+		case <-done:
+			answered = true
+		case <-time.After(3 * time.Second):
+		}
+		free()
+		<-done
+		cs.CloseSend()
+		for cs.RecvMsg(new(pb.Message)) == nil {
+		}
+	})
+	if stall != "" {
+		return o.failf("%s/%s: %s", c.Carrier, c.Gate, stall)
+	}
+	o.Observed = map[string]interface{}{"recv": errStr(rerr), "header": hdr, "header_err": errStr(herr), "answered_while_handler_waits": answered}
+	if rerr != nil {
+		return o.failf("%s/%s: the first response message did not arrive: %v", c.Carrier, c.Gate, rerr)
+	}
+	if !answered {
+		return o.failf("%s/%s: the first response message has been received (handler header operations before it: %v), yet Header() was still blocked 3s later, until the handler moved on", c.Carrier, c.Gate, c.GateOps)
+	}
+	if herr != nil {
+		return o.failf("%s/%s: Header() after the first response message: %v", c.Carrier, c.Gate, herr)
+	}
+	want := metadata.MD{}
+	for range c.GateOps {
+		want = metadata.Join(want, c.GateMD.MD())
+	}
+	if ok, why := mdContains(hdr, want); !ok {
+		return o.failf("%s/%s: Header() after the first response message (handler did %v with %v): %s", c.Carrier, c.Gate, c.GateOps, c.GateMD, why)
+	}
+	return o
 }
 
 // mdDeviation compares everything metadata-related with the model; "" = as expected.
@@ -94,6 +194,9 @@ func c03NonTrivial(s *Script) bool {
 }
 
 func propC03(c c03Case) *Outcome {
+	if c.Gate != "" {
+		return c03Gate(c)
+	}
 	o := &Outcome{}
 	s := &c.S
 	e := modelScript(s)
@@ -161,6 +264,14 @@ func propC03(c c03Case) *Outcome {
 }
 
 func genC03(t *rapid.T) c03Case {
+	if rapid.IntRange(0, 24).Draw(t, "gate") == 0 {
+		c := c03Case{Carrier: rapid.SampledFrom(sutCarriers).Draw(t, "gcarrier"), Gate: rapid.SampledFrom([]string{kServerStream, kBidi}).Draw(t, "gkind")}
+		c.GateOps = rapid.SampledFrom([][]string{nil, nil, {"sethdr"}, {"sendhdr"}, {"sethdr", "sethdr"}, {"sethdr", "sendhdr"}}).Draw(t, "gops")
+		if len(c.GateOps) > 0 {
+			c.GateMD = genMD(t, "gmd", 2)
+		}
+		return c
+	}
 	c := c03Case{
 		Carrier: rapid.SampledFrom(sutCarriers).Draw(t, "carrier"),
 		S:       genScript(t, scriptGenOpts{MaxMsg: 200, MDKeys: 3, PlainStatus: true}),
